@@ -24,12 +24,15 @@ def model_predict(jobs, prop="none", workers=4, procs=None, timeout=1800, allow_
 def norm_model(m):
     """JSON produced by ToJson -> same shape as build.observe()."""
     vals = m["values"] if isinstance(m["values"], dict) else {}
-    calls = []
+    calls, allcalls = [], []
     for c in m["calls"]:
+        allcalls.append({"path": c["path"], "idx": c["idx"], "step": c["step"], "frame": c["frame"], "node": c["node"], "kind": c.get("kind", "func")})
+        if c.get("kind") == "graph":
+            continue            # the real call log has leaf bodies only
         calls.append({"path": c["path"], "idx": c["idx"], "args": [list(a) for a in c["args"]],
                       "step": c["step"], "frame": c["frame"], "node": c["node"], "dec": list(c["dec"])})
     return {"status": m["status"], "values": vals, "err": m["err"], "pause": m["pause"], "calls": calls,
-            "steps": m["steps"], "raw_keys": list(m.get("raw_keys", [])), "aux": m.get("aux", {}), "done": [d["path"] for d in m.get("done", [])]}
+            "allcalls": allcalls, "steps": m["steps"], "raw_keys": list(m.get("raw_keys", [])), "aux": m.get("aux", {}), "done": [d["path"] for d in m.get("done", [])]}
 
 
 def try_real(job, **kw):
